@@ -40,13 +40,19 @@ int main(void)
     }
     else if(!strcmp(op, "loo") || !strcmp(op, "kfold") || !strcmp(op, "boot")){
       long algo = rd_long(); size_t nlv = rd_size(); matrix *x = rd_matrix(), *y = rd_matrix(), *py, *pr; size_t nth;
-      MODELINPUT in = initModelInput();
+      MODELINPUT in = initModelInput(); size_t cv_grp = 0, cv_it = 0;
       in.mx = x; in.my = y; in.nlv = nlv; in.xautoscaling = 1; in.yautoscaling = 0;
       initMatrix(&py); initMatrix(&pr);
       if(!strcmp(op, "loo")){ nth = rd_size(); LeaveOneOut(&in, (AlgorithmType)algo, py, pr, nth, NULL, 0); }
       else if(!strcmp(op, "kfold")){ uivector *g = rd_uivector(); nth = rd_size(); KFoldCV(&in, g, (AlgorithmType)algo, py, pr, nth, NULL, 0); DelUIVector(&g); }
-      else { size_t grp = rd_size(), it = rd_size(); nth = rd_size(); BootstrapRandomGroupsCV(&in, grp, it, (AlgorithmType)algo, py, pr, nth, NULL, 0); }
+      else { size_t grp = rd_size(), it = rd_size(); nth = rd_size(); cv_grp = grp; cv_it = it; BootstrapRandomGroupsCV(&in, grp, it, (AlgorithmType)algo, py, pr, nth, NULL, 0); }
       pr_matrix("pred", py); pr_matrix("resid", pr);
+      { /* the same call asking for the residuals only (no prediction matrix): same residuals */
+        matrix *pr2; initMatrix(&pr2);
+        if(!strcmp(op, "loo")) LeaveOneOut(&in, (AlgorithmType)algo, NULL, pr2, nth, NULL, 0);
+        else if(!strcmp(op, "boot")) BootstrapRandomGroupsCV(&in, cv_grp, cv_it, (AlgorithmType)algo, NULL, pr2, nth, NULL, 0);
+        if(strcmp(op, "kfold")) pr_matrix("resid_only", pr2);
+        DelMatrix(&pr2); }
       DelMatrix(&py); DelMatrix(&pr); DelMatrix(&x); DelMatrix(&y);
     }
     else{ fprintf(stderr, "unknown op %s\n", op); return 2; }
